@@ -145,7 +145,7 @@ class LifterModel(object):
                 S = afs.u16
             live = live if live is not None else set(range(256))
             live_reg = sorted(b & 7 for b in live if b >= 0xC0)
-            if live_reg and X.dis_digit_reg_rejected(modifs, dibs):
+            if live_reg and X.dis_digit_reg_rejected(modifs, dibs, name, row.opc):
                 live_reg = []           # _dis returns None for a register r/m operand of this row
             live_mem = any(b < 0xC0 for b in live)
             if modifs.get(mmx) and X.dis_mmx_modes(name, list(prefix), False, digit=True) == 'rejected':
@@ -281,6 +281,8 @@ class LifterModel(object):
             c1 = X.dis_rmr_pre(modifs, c0)
             if c1 == 'rejected' or (modr[afs.ad] and (c1 >> 6) == 3):
                 continue
+            if not modr[afs.ad] and X.dis_rmr_reg_rejected(modifs, row.name):
+                continue                # memory-only instruction: _dis returns None for a register r/m
             mafs = {afs.ad: False, (1 + reg_cat): 1}
             if modifs.get(w8):
                 modr[afs.size] = afs.u08
